@@ -437,6 +437,8 @@ from ..selftest import fire, silent      # noqa: E402
 
 CK = 'xdoctest/checker.py'
 VARIANTS = [
+    silent('scan-extracted-into-a-helper', (CK, "    for w in ws:\n        # w may be '' at times, if there are consecutive ellipses, or\n        # due to an ellipsis at the start or end of `want`.  That's OK.\n        # Search for an empty string succeeds, and doesn't change startpos.\n        startpos = got.find(w, startpos, endpos)\n        if startpos < 0:\n            return False\n        startpos += len(w)\n\n    return True\n", '    return _find_pieces_in_order(got, ws, startpos, endpos)\n\n\ndef _find_pieces_in_order(got, pieces, startpos, endpos):\n    for piece in pieces:\n        startpos = got.find(piece, startpos, endpos)\n        if startpos < 0:\n            return False\n        startpos += len(piece)\n    return True\n')),
+    fire('scan-extracted-into-a-helper-that-lost-the-end-bound', 'C06.R3', (CK, "    for w in ws:\n        # w may be '' at times, if there are consecutive ellipses, or\n        # due to an ellipsis at the start or end of `want`.  That's OK.\n        # Search for an empty string succeeds, and doesn't change startpos.\n        startpos = got.find(w, startpos, endpos)\n        if startpos < 0:\n            return False\n        startpos += len(w)\n\n    return True\n", '    return _find_pieces_in_order(got, ws, startpos, endpos)\n\n\ndef _find_pieces_in_order(got, pieces, startpos, endpos):\n    for piece in pieces:\n        startpos = got.find(piece, startpos)\n        if startpos < 0:\n            return False\n        startpos += len(piece)\n    return True\n')),
     fire('prefix-compared-only-when-empty', 'C06.R9', (CK, "    w = ws[0]\n    if w:   # starts with exact match\n", "    w = ws[0]\n    if not w:   # starts with exact match\n")),
     fire('missing-piece-accepted', 'C06.R9', (CK, "        if startpos < 0:\n            return False\n", "        if startpos < 0:\n            return True\n")),
     fire('suffix-mismatch-ignored', 'C06.R9', (CK, "            del ws[-1]\n        else:\n            return False\n", "            del ws[-1]\n")),
